@@ -54,6 +54,35 @@ def hook_registrations(mod: Module) -> Dict[str, Dict[str, Tuple[str, ast.AST]]]
     return out
 
 
+def string_format_table(rs: Function) -> List[Tuple[str, str, ast.AST]]:
+    """(format, python type, node) pairs of the string-format dispatch of `_resolve_string`: a dict display `{"date": "date", ...}`,
+    or a `match <format>:` whose cases bind one variable to a type literal (`case "date": python_type = "date"`), or an if/elif chain
+    comparing the format with literals."""
+    out: List[Tuple[str, str, ast.AST]] = []
+    for n in own_nodes(rs.node):
+        if isinstance(n, (ast.Assign, ast.AnnAssign)) and isinstance(getattr(n, "value", None), ast.Dict) and any(
+                const_str(k) in ("date-time", "uuid", "date") for k in n.value.keys if k is not None):
+            for k, v in zip(n.value.keys, n.value.values):
+                if const_str(k) is not None and const_str(v) is not None:
+                    out.append((const_str(k) or "", const_str(v) or "", v))
+    if out:
+        return out
+    for n in own_nodes(rs.node):
+        if isinstance(n, ast.Match):
+            for case in n.cases:
+                fmts = [x.value for x in ast.walk(case.pattern) if isinstance(x, ast.Constant) and isinstance(x.value, str)]
+                tys = [(const_str(st.value), st.value) for st in case.body if isinstance(st, (ast.Assign, ast.AnnAssign)) and getattr(st, "value", None) is not None
+                       and const_str(st.value) is not None]
+                tys += [(const_str(k.value), k.value) for st in case.body for c in ast.walk(st) if isinstance(c, ast.Call) and dotted(c.func) == "ResolvedType"
+                        for k in c.keywords if k.arg == "python_type" and const_str(k.value) is not None]
+                for f in fmts:
+                    for t, node in tys[:1]:
+                        out.append((f, t or "", node))
+    if out and any(f in ("date-time", "uuid", "date") for f, _, _ in out):
+        return out
+    return []
+
+
 def generator_leaf_types(repo: Repo) -> Dict[str, str]:
     """Python leaf types the type resolver can emit -> where it comes from."""
     sr = repo.module("types.resolvers.schema_resolver")
@@ -61,15 +90,10 @@ def generator_leaf_types(repo: Repo) -> Dict[str, str]:
     rs = sr.classes["OpenAPISchemaResolver"].methods.get("_resolve_string") if "OpenAPISchemaResolver" in sr.classes else None
     if rs is None:
         raise AnalysisError("anchor vanished: OpenAPISchemaResolver._resolve_string")
-    found = False
-    for n in own_nodes(rs.node):
-        if isinstance(n, ast.Assign) and isinstance(n.targets[0], ast.Name) and isinstance(n.value, ast.Dict) and any(
-                const_str(k) in ("date-time", "uuid", "date") for k in n.value.keys if k is not None):
-            found = True
-            for k, v in zip(n.value.keys, n.value.values):
-                if const_str(v) is not None:
-                    out[const_str(v) or ""] = f"format: {const_str(k)}"
-    if not found:
+    table = string_format_table(rs)
+    for f_, t_, _ in table:
+        out[t_] = f"format: {f_}"
+    if not table:
         raise AnalysisError("anchor vanished: the format -> python type table in _resolve_string")
     # literal python_type="..." results of the primitive resolvers
     for fn in sr.functions.values():
@@ -245,18 +269,13 @@ def rule_string_formats(repo: Repo, rep: Report, rule: str) -> None:
     if rs is None:
         raise AnalysisError("anchor vanished: OpenAPISchemaResolver._resolve_string")
     n = 0
-    for node in own_nodes(rs.node):
-        if isinstance(node, ast.Assign) and isinstance(node.value, ast.Dict) and any(const_str(k) in ("date-time", "uuid", "date") for k in node.value.keys if k is not None):
-            for k, v in zip(node.value.keys, node.value.values):
-                fmt_, ty = const_str(k), const_str(v)
-                if fmt_ is None or ty is None:
-                    continue
-                n += 1
-                sub = f"{sr.relpath}:_resolve_string format `{fmt_}` -> `{ty}`"
-                if ty == "str" or (ty in regs and "unstructure" in regs[ty]):
-                    rep.ok(rule, sub, "encodes back to a JSON string" + ("" if ty == "str" else f" (hook {regs[ty]['unstructure'][0]})"), rs.loc(v))
-                else:
-                    rep.violation(rule, sub, f"{rs.fq}|string-format-non-text|{fmt_}|{ty}",
-                                  f"a `type: string, format: {fmt_}` value is typed `{ty}`, which the converter writes as a JSON {'number' if ty in ('int', 'float') else 'value of another kind'}: "
-                                  "a conforming document (\"0012\") decodes and is re-encoded as 12 - the wire type and text change silently", rs.loc(v))
-    rep.require(n >= 5, f"{rule}: only {n} entries of the string format table found (floor 5)")
+    for fmt_, ty, v in string_format_table(rs):
+        n += 1
+        sub = f"{sr.relpath}:_resolve_string format `{fmt_}` -> `{ty}`"
+        if ty == "str" or (ty in regs and "unstructure" in regs[ty]):
+            rep.ok(rule, sub, "encodes back to a JSON string" + ("" if ty == "str" else f" (hook {regs[ty]['unstructure'][0]})"), rs.loc(v))
+        else:
+            rep.violation(rule, sub, f"{rs.fq}|string-format-non-text|{fmt_}|{ty}",
+                          f"a `type: string, format: {fmt_}` value is typed `{ty}`, which the converter writes as a JSON {'number' if ty in ('int', 'float') else 'value of another kind'}: "
+                          "a conforming document (\"0012\") decodes and is re-encoded as 12 - the wire type and text change silently", rs.loc(v))
+    rep.require(n >= 4, f"{rule}: only {n} entries of the string format table found (floor 4)")
